@@ -1,7 +1,7 @@
 (* C20 -- Nearest-source spreading returns true least-cost distances and sources. *)
 From Coq Require Import List Arith ZArith Bool.
 Import ListNotations.
-From PF Require Import Arr Spread SpreadSpec SpreadOpt.
+From PF Require Import Arr Spread SpreadSpec SpreadOpt SpreadDissolve.
 Local Open Scope Z_scope.
 
 (* soundness, for every raster, mask, non-negative friction and step lengths: observation cells keep their
@@ -46,6 +46,54 @@ Theorem spread_attained : forall nrow ncol obs msk nodata frc dx dy hyp,
     apath nrow ncol obs msk nodata frc dx dy hyp (Z.to_nat (nth j src 0)) j (nth j dst 0).
 Proof. exact SpreadOpt.spread_attained. Qed.
 Print Assumptions spread_attained.
+
+(* DISSOLVING REGIONS (regions.region_dissolve, modelled on top of spread2d with the dissolved regions as background):
+   only cells of the listed regions change; every cell of a dissolved region gets the label that the spreading result
+   carries at the region's location -- the caller's location (idxs=...) or a cell of the region with the smallest
+   distance (labels=...) -- and that label belongs to a surviving region, is attained by a path from a surviving cell to
+   the location, and no surviving cell has a cheaper path to it. *)
+Theorem dissolve_labels_spec : forall nrow ncol regs labels dx dy hyp,
+  0 <= dx -> 0 <= dy -> 0 <= hyp -> length regs = (nrow * ncol)%nat -> NoDup labels ->
+  let '(out, src, dst) := spread2d nrow ncol (regs0 regs labels) None 0 None dx dy hyp in
+  let R := region_dissolve nrow ncol regs labels None dx dy hyp in
+  length R = length regs /\
+  (forall j, ~ In (nth j regs 0) labels -> nth j R 0 = nth j regs 0) /\
+  (forall k, (k < length labels)%nat -> (exists i, (i < length regs)%nat /\ nth i regs 0 = nth k labels 0) ->
+     let p := argmin_region regs dst (nth k labels 0) in
+     (p < length regs)%nat /\ nth p regs 0 = nth k labels 0 /\
+     (forall q, (q < length regs)%nat -> nth q regs 0 = nth k labels 0 -> nth p dst 0 <= nth q dst 0) /\
+     (forall j, (j < length regs)%nat -> nth j regs 0 = nth k labels 0 -> nth j R 0 = nth p out 0) /\
+     (nth p src 0 <> -1 ->
+        let s := Z.to_nat (nth p src 0) in
+        nth p out 0 = nth s regs 0 /\ ~ In (nth s regs 0) labels /\ nth s regs 0 <> 0 /\
+        apath nrow ncol (regs0 regs labels) None 0 None dx dy hyp s p (nth p dst 0) /\
+        forall s' D, apath nrow ncol (regs0 regs labels) None 0 None dx dy hyp s' p D -> nth p dst 0 <= D)).
+Proof. exact SpreadDissolve.dissolve_labels_spec. Qed.
+Print Assumptions dissolve_labels_spec.
+
+Theorem dissolve_idxs_spec : forall nrow ncol regs pos dx dy hyp,
+  0 <= dx -> 0 <= dy -> 0 <= hyp -> length regs = (nrow * ncol)%nat ->
+  NoDup (map (fun i => nth i regs 0) pos) -> (forall p, In p pos -> (p < length regs)%nat) ->
+  let labels := map (fun i => nth i regs 0) pos in
+  let '(out, src, dst) := spread2d nrow ncol (regs0 regs labels) None 0 None dx dy hyp in
+  let R := region_dissolve nrow ncol regs [] (Some pos) dx dy hyp in
+  length R = length regs /\
+  (forall j, ~ In (nth j regs 0) labels -> nth j R 0 = nth j regs 0) /\
+  (forall k, (k < length pos)%nat ->
+     let p := nth k pos 0%nat in
+     (forall j, (j < length regs)%nat -> nth j regs 0 = nth p regs 0 -> nth j R 0 = nth p out 0) /\
+     (nth p src 0 <> -1 ->
+        let s := Z.to_nat (nth p src 0) in
+        nth p out 0 = nth s regs 0 /\ ~ In (nth s regs 0) labels /\ nth s regs 0 <> 0 /\
+        apath nrow ncol (regs0 regs labels) None 0 None dx dy hyp s p (nth p dst 0) /\
+        forall s' D, apath nrow ncol (regs0 regs labels) None 0 None dx dy hyp s' p D -> nth p dst 0 <= D)).
+Proof. exact SpreadDissolve.dissolve_idxs_spec. Qed.
+Print Assumptions dissolve_idxs_spec.
+
+(* non-vacuity: region 7 (left) is dissolved into its nearest survivor 5; region 2 stays *)
+Example dissolve_example : region_dissolve 1 5 [7;7;5;5;2] [7] None 3 4 5 = [5;5;5;5;2]
+  /\ region_dissolve 1 5 [7;7;5;2;2] [] (Some [0%nat; 2%nat]) 3 4 5 = [2;2;2;2;2].
+Proof. vm_compute. split; reflexivity. Qed.
 
 (* smoke / non-vacuity: one observation in the corner of a 2x3 raster with 3-4-5 cells *)
 Example spread_example :
